@@ -198,11 +198,19 @@ class Dims:
         for b in body.reachable:
             c = D.cmp_of_switch(body, dg, b)
             if not c: continue
+            # both polarities: `e < N` on its true edge, or `!(N <= e)` written as `if e >= N {reject} else {..}`
+            forms = []
             op, x, y, tt, ft = c
-            cop, lo, hi = D.canon_cmp(op, x, y)
-            if cop not in ("lt", "le"): continue
-            if D.norm(strip_casts(lo)) == ne and self.kind(fk, hi) in ("N", "K") and tt != ft and body.dominates(tt, blk):
-                return True
-            if D.norm(strip_casts(hi)) == ne and strip_casts(lo)[0] == "const" and hi[0] == "cast" and str(hi[1]).startswith("i") and tt != ft and body.dominates(tt, blk):
-                return True
+            if op in ("Lt", "Le"): forms.append((x, y, tt))
+            if op in ("Gt", "Ge"): forms.append((y, x, tt))
+            if op == "Ge": forms.append((x, y, ft))          # !(x >= y)  ==  x < y
+            if op == "Gt": forms.append((x, y, ft))          # !(x > y)   ==  x <= y
+            if op == "Le": forms.append((y, x, ft))          # !(x <= y)  ==  y < x
+            if op == "Lt": forms.append((y, x, ft))          # !(x < y)   ==  y <= x
+            for (lo, hi, edge) in forms:
+                if tt == ft: continue
+                if D.norm(strip_casts(lo)) == ne and self.kind(fk, hi) in ("N", "K") and body.dominates(edge, blk):
+                    return True
+                if D.norm(strip_casts(hi)) == ne and strip_casts(lo)[0] == "const" and hi[0] == "cast" and str(hi[1]).startswith("i") and body.dominates(edge, blk):
+                    return True
         return False
